@@ -98,13 +98,15 @@ func (pConn *PFCPConn) HandlePFCPMsg(buf []byte) {
 
 	// Session related messages
 	case message.MsgTypeSessionEstablishmentRequest:
-		reply, err = pConn.handleSessionEstablishmentRequest(msg)
+		reply, err = pConn.handleSessionMsg(pConn.handleSessionEstablishmentRequest, msg)
 	case message.MsgTypeSessionModificationRequest:
-		reply, err = pConn.handleSessionModificationRequest(msg)
+		reply, err = pConn.handleSessionMsg(pConn.handleSessionModificationRequest, msg)
 	case message.MsgTypeSessionDeletionRequest:
-		reply, err = pConn.handleSessionDeletionRequest(msg)
+		reply, err = pConn.handleSessionMsg(pConn.handleSessionDeletionRequest, msg)
 	case message.MsgTypeSessionReportResponse:
-		err = pConn.handleSessionReportResponse(msg)
+		_, err = pConn.handleSessionMsg(func(msg message.Message) (message.Message, error) {
+			return nil, pConn.handleSessionReportResponse(msg)
+		}, msg)
 
 	// Incoming response messages
 	// TODO: Session Report Request
@@ -131,6 +133,23 @@ func (pConn *PFCPConn) HandlePFCPMsg(buf []byte) {
 	if reply != nil {
 		pConn.SendPFCPMsg(reply)
 	}
+}
+
+// handleSessionMsg runs the handler of a session-level message, unless the connection is
+// being torn down: the teardown removes every stored session from the datapath, so no
+// handler may create or change a session while it does so, or afterwards.
+func (pConn *PFCPConn) handleSessionMsg(
+	handle func(message.Message) (message.Message, error), msg message.Message) (message.Message, error) {
+	pConn.sessMu.Lock()
+	defer pConn.sessMu.Unlock()
+
+	select {
+	case <-pConn.shutdown:
+		return nil, errProcess(ErrOperationFailedWithReason("handle "+msg.MessageTypeName(), "connection is shut down"))
+	default:
+	}
+
+	return handle(msg)
 }
 
 func (pConn *PFCPConn) SendPFCPMsg(msg message.Message) {
